@@ -57,10 +57,11 @@ def distinct_sigs(sc):
 
 
 def worker(payload):
-    seed, n, static_only = payload
+    seed, n, static_only = payload[:3]
+    cuts = len(payload) > 3 and payload[3]
     rng = random.Random(seed)
-    batch = [gen_scenario(rng, static_only=static_only) for _ in range(n)]
-    return evaluate_batch(batch, rng, static_only)
+    batch = [gen_scenario(rng, static_only=static_only, cuts=cuts) for _ in range(n)]
+    return evaluate_batch(batch, rng, static_only and not cuts)
 
 
 def directed_from_levels(diffs):
@@ -145,12 +146,17 @@ def evaluate_batch(batch, rng, static_only):
         corr_ok = True
         seen_get = False
         reg_after_get = False
+        cut_seen = False
+        broke_at = 0
         warm = {}
         for j, (a, b) in enumerate(zip(r["ops"], im)):
             out["ops"] += 1
             op = sc["ops"][j]
             ma = dict(a)
             info = None
+            if isinstance(ma["r"], dict) and "nw" in ma["r"]:
+                bump("interrupted lookups" + (": inside the writes" if ma["r"]["will"] and op[3] < ma["r"]["nw"] else ": no effect (hit / completed)"))
+                ma["r"] = None
             if isinstance(ma["r"], dict):
                 info = ma["r"]
                 ma["r"] = info["res"]
@@ -158,16 +164,25 @@ def evaluate_batch(batch, rng, static_only):
             bb = {k: v for k, v in b.items() if k != "npred" and (k != "nres" or "nres" in ma)}
             predicted[0] = True
             stop_after = False
-            if ma != bb:
+            if not corr_ok:
+                # after a break at an interrupted lookup: keep evaluating the oracles on the lookups that follow
+                predicted[0] = False
+                stop_after = op[0] == "reg" or j > broke_at + 8
+            elif ma != bb:
                 out["corr"].append({"layer": "D", "op_index": j, "op": op, "model": ma, "impl": b, "scenario": desc})
                 corr_ok = False
+                broke_at = j
                 predicted[0] = False
-                stop_after = True
-                if op[0] != "get":
+                stop_after = op[0] != "cut"
+                if op[0] == "reg":
                     break
+            if op[0] == "cut":
+                cut_seen = True
+                continue
             if op[0] != "get":
                 if seen_get:
                     reg_after_get = True
+                cut_seen = False
                 warm = {}
                 continue
             seen_get = True
@@ -185,7 +200,7 @@ def evaluate_batch(batch, rng, static_only):
             ik = kind(b["r"])
             bump("outcome:" + ik[0])
             # ---- C04 / C05: same answer as on a fresh table with the same registrations
-            o4 = orc("C05") if reg_after_get else orc("C04")
+            o4 = orc("C18") if cut_seen else (orc("C05") if reg_after_get else orc("C04"))
             fr = fresh_impl(w, sc, j)
             o4["n"] += 1
             if ik[0] in ("ran", "ambiguous"):
